@@ -235,7 +235,12 @@ def trace_and_validate(out, E, X, tomo, ids, dmax, dmin, tag="", store=None):
 
     def table(P):
         a = np.zeros((n, 20))
-        a[:, [IX["x"], IX["y"], IX["z"]]] = P
+        # a site is the particle's complete position x + shift: most lists carry refined (non-zero) shifts
+        S = np.zeros((n, 3))
+        if int(ids[0]) % 3 != 0:
+            S = np.stack([((ids * (37 + 6 * k_)) % 11 - 5) / 4.0 for k_ in range(3)], axis=1)
+        a[:, [IX["x"], IX["y"], IX["z"]]] = P - S
+        a[:, [IX["shift_x"], IX["shift_y"], IX["shift_z"]]] = S
         a[:, IX["subtomo_id"]] = ids
         a[:, IX["tomo_id"]] = tomo
         a[:, IX["score"]] = 0.5
